@@ -146,7 +146,10 @@ func wide64(f string, op int) bool {
 			return true
 		}
 	}
-	return f == "VOP3A" && (op == 488 || op == 489 || op == 520 || (op >= 655 && op <= 657))
+	if f == "VOP1" && (op == 4 || op == 15 || op == 16 || op == 22) { // binary64 source or destination
+		return true
+	}
+	return f == "VOP3A" && (op == 488 || op == 489 || op == 520 || op == 640 || op == 641 || (op >= 655 && op <= 657))
 }
 
 func opCode(o *insts.Operand) int {
